@@ -100,11 +100,14 @@ func safeExec(p Prop, c Case) (obs [][][]string) {
 		}
 	}
 	defer func() { curPreset = "" }()
+	curNoise = false
 	for _, l := range c.Cfg {
 		if len(l) == 2 && l[0] == "noise" && l[1] == "1" {
 			noisePrelude()
+			curNoise = true
 		}
 	}
+	defer func() { curNoise = false }()
 	defer func() {
 		if r := recover(); r != nil {
 			obs = append(obs, [][]string{{"panic", hx(fmt.Sprint(r))}})
@@ -247,6 +250,10 @@ var subcommands = map[string]func(w *bufio.Writer, args []string){}
 // WithHighPerformance() in front of the options the case sets itself (larger buffers, the expand strategy, more sink
 // workers, monitoring on). No property mentions the preset: the observables must be what they are without it.
 var curPreset string
+
+// curNoise: the running case carries `noise 1` (single-row query helpers then also send a row that the instance's
+// input schema rejects before the observed row)
+var curNoise bool
 
 func withPreset(c *Case) {
 	if c.Idx%7 == 6 {
